@@ -156,6 +156,13 @@ static void runsScenario(int run, const Circuit &base, const ColoquinteParameter
     // repeated run on a fresh copy
     Circuit d = base;
     call(noCb, d, "D", "global", p);
+    // legalization and detailed placement entered directly on freshly built circuits (no global placement before), with and
+    // without an observer
+    Circuit f = base, g = base;
+    bool lf = call(withCb, f, "F", "legalize", p);
+    bool lg = call(noCb, g, "G", "legalize", p);
+    if (lf) call(noCb, f, "F", "detailed", p);
+    if (lg) call(withCb, g, "G", "detailed", p);
   }, "runs");
   // process 2: an unrelated job first (different size and parameters), then the same jobs in another order
   vt::forked(run, 300, errPath, [&] {
